@@ -50,6 +50,7 @@ type Conn struct {
 	vers            uint16 // 协商出的协议版本
 	haveVers        bool   // 是否已收到版本信息
 	config          *Config
+	baseConfig      *Config // 服务端：GetConfigForClient 选择之前的配置
 	didResume       bool   // 会话重用
 	cipherSuite     uint16 // 密码套件 ID
 	handshakes      int    // 握手次数
